@@ -576,7 +576,9 @@ fn skip_uvlc(reader: &mut BitReader) -> Option<()> {
             return None;
         }
     }
-    if leading_zeros > 0 {
+    // AV1 spec 4.10.3: with 32 or more leading zeros the value is 2^32-1 and
+    // no value bits follow the terminating one.
+    if leading_zeros > 0 && leading_zeros < 32 {
         reader.skip_bits(leading_zeros)?;
     }
     Some(())
